@@ -7,7 +7,9 @@ VARIABLES phase, files
 
 Names == {S("a"), S("b"), S("a/b"), S("a b"), S("a  b"), S("B"), <<233>>, <<97, 10, 98>>, S("h111  a"), S("a/c"),
           \* a newline in first and in last position, and names that a formatting routine could misread
-          <<10, 97, 98>>, <<97, 10>>, S("a%20b"), S("100%"), S("%[1]x"), S("%s")}
+          <<10, 97, 98>>, <<97, 10>>, S("a%20b"), S("100%"), S("%[1]x"), S("%s"),
+          \* names that are not in clean form (the summary uses the names as given)
+          S("./a"), S("a//b"), S("a/../b"), S("a/")}
 Contents == {1, 2}
 AllFiles == {[name |-> n, content |-> c] : n \in Names, c \in Contents}
 NameSet(fs) == {fs[i].name : i \in 1..Len(fs)}
